@@ -37,7 +37,7 @@ SUB = {
 
 def mc_strings(d, name, scopes, userskip=(), invariants=ALL_INV, dump=True, sources=(), runs='BC'):
     """scopes: list of (words, maxwords)"""
-    sc = ', '.join('[w |-> {%s}, n |-> %d]' % (', '.join(tlc.tla_seq(w) for w in ws), n) for ws, n in scopes)
+    sc = ', '.join('[w |-> {%s}, n |-> %d, m |-> %d]' % (', '.join(tlc.tla_seq(w) for w in s[0]), s[1], s[2] if len(s) > 2 else 0) for s in scopes)
     defs = ['MCScopes == <<' + sc + '>>',
             'MCSources == {' + ', '.join(tlc.tla_seq(s) for s in sources) + '}',
             'MCUserSkip == {' + ', '.join(tlc.tla_seq(s) for s in userskip) + '}']
@@ -57,7 +57,7 @@ def explore(chk, label, scopes, userskip=(), invariants=ALL_INV, timeout=900, si
     d = tlc.workdir('%s_%s' % (chk.pid, label))
     mc_strings(d, 'MC', scopes, userskip, invariants, sources=sources, runs=runs)
     res = tlc.run(d, 'MC', timeout=timeout, simulate=simulate, depth=depth, seed=chk.seed if simulate else None)
-    chk.add_tlc(label, res, 'Strings: ' + '; '.join('%d words ^<=%d' % (len(w), n) for w, n in scopes)
+    chk.add_tlc(label, res, 'Strings: ' + '; '.join('%d words ^<=%d' % (len(s[0]), s[1]) for s in scopes)
                 + (', simulate' if simulate else ''))
     return res
 
@@ -245,11 +245,18 @@ def mutations(rng, docs, per_doc, alphabet):
     return out
 
 
-def standard(chk, scopes, inv, clauses, what, extra_sources=(), sources=(), skip=(), timeout=3000, samples=6, runs='BC'):
+def standard(chk, scopes, inv, clauses, what, extra_sources=(), sources=(), skip=(), timeout=3000, samples=6, runs='BC', simulate_words=None):
     """TLC exploration of the scopes (MACHINE |= CONTRACT for inv) + replay + trace validation of extras."""
     res = explore(chk, 'strings', scopes, userskip=skip, invariants=inv, timeout=timeout, sources=sources, runs=runs)
     model_must_hold(chk, res)
-    bad = replay(chk, res.records, skip)
+    recs = list(res.records)
+    if simulate_words:
+        # random long sources from TLC's simulation mode (seeded): the machine's verdicts on them are replayed like the others
+        sim = explore(chk, 'simulate', [(simulate_words, 22, 6)], userskip=skip, invariants=inv, timeout=timeout, runs=runs,
+                      simulate=60 if chk.tier == 'quick' else 4000, depth=6000)
+        model_must_hold(chk, sim)
+        recs += sim.records
+    bad = replay(chk, recs, skip)
     # every disagreement is repeated in a fresh interpreter: behaviour that depends on what was parsed before shows there
     os.makedirs(os.path.join(tlc.BUILD), exist_ok=True)
     fresh = []
